@@ -286,14 +286,45 @@ theorem send_layout_length (fds : List Nat) : (createSend fds).1.length = (creat
   simp only [List.length_append, encHdr_length, encFds_length, List.length_replicate, HDR, FD]
   omega
 
+/-- **send_image**: the exact byte image `create_send` hands to sendmsg for `n` descriptors — `cmsg_len = 16 + 4n` as 8
+bytes little endian, `cmsg_level = SOL_SOCKET (1)`, `cmsg_type = SCM_RIGHTS (1)` as 4 bytes each, the descriptors as 4
+bytes each, then `4·(n mod 2)` zero bytes up to the next multiple of 8; `msg_controllen` is the length of that image,
+`CMSG_SPACE(4n) = 16 + 4n + 4·(n mod 2)`, a multiple of 8 -/
+theorem send_image (fds : List Nat) :
+    (createSend fds).1 = Cmsg.le 8 (16 + 4 * fds.length) ++ [1, 0, 0, 0] ++ [1, 0, 0, 0] ++ encFds fds ++
+        List.replicate (4 * (fds.length % 2)) 0 ∧
+    (createSend fds).2 = 16 + 4 * fds.length + 4 * (fds.length % 2) ∧
+    (createSend fds).1.length = (createSend fds).2 ∧ (createSend fds).2 % 8 = 0 := by
+  have hs := cmsg_sizes fds.length
+  refine ⟨?_, ?_, send_layout_length fds, ?_⟩
+  · rw [send_layout]
+    have h1 : cmsgLen (4 * fds.length) = 16 + 4 * fds.length := hs.1
+    have h2 : cmsgSpace (4 * fds.length) - (16 + 4 * fds.length) = 4 * (fds.length % 2) := by rw [hs.2.1]; omega
+    rw [h1, h2]
+    simp only [encHdr, Cmsg.le, SOL_SOCKET, SCM_RIGHTS, List.append_assoc]
+  · rw [send_layout]; exact hs.2.1
+  · rw [send_layout]; exact hs.2.2
+
+/-- **send_wellformed**: what `create_send` builds is, for the KERNEL's parser (`CMSG_FIRSTHDR`/`CMSG_OK`/
+`__cmsg_nxthdr` over `msg_controllen` bytes), exactly one well-formed header `(16 + 4n, SOL_SOCKET, SCM_RIGHTS)` at
+offset 0 carrying exactly the descriptors given, followed by nothing -/
+theorem send_wellformed (fds : List Nat) (hn : 16 + 4 * fds.length < 2 ^ 64) (hf : ∀ f ∈ fds, f < 2 ^ 32) :
+    wfPrefix kNext (createSend fds).1 (createSend fds).2 = ([(0, ⟨16 + 4 * fds.length, SOL_SOCKET, SCM_RIGHTS⟩)], .done) ∧
+    rightsOf (createSend fds).1 (wfPrefix kNext (createSend fds).1 (createSend fds).2).1 = [fds] := by
+  have hw := createSend_walk kNext fds (by omega) (by
+    have ha := align_ge (16 + 4 * fds.length)
+    simp only [kNext, createSend_ctl, HDR]; rw [if_pos (by omega)])
+  refine ⟨hw, ?_⟩
+  rw [hw]; exact createSend_rights fds (fun f h => by have := hf f h; omega)
+
 /-- **iter_exact** and **iter_in_bounds**, for ANY list of SCM_RIGHTS messages (any descriptor counts), ANY supplied
 control length `len` (smaller than, equal to, larger than needed) and ANY previous buffer content / following
 memory `g`: the iterator over what the kernel left returns exactly the descriptors that fit, hits neither a fault nor
 an arithmetic panic, and every byte it reads lies inside `[0, msg_controllen)`. -/
-theorem iter_exact (msgs : List (List Nat)) (len : Nat) (g : List Nat) (hg : len ≤ g.length) (hlen : len < 2 ^ 63)
-    (hfd : FdsOk msgs) :
-    (iterate (kernelFill msgs len g).1 (kernelFill msgs len g).2).msgs = delivered msgs len ∧
-    (iterate (kernelFill msgs len g).1 (kernelFill msgs len g).2).bad = none := by
+theorem iter_exact (base : Nat) (msgs : List (List Nat)) (len : Nat) (g : List Nat) (hg : len ≤ g.length)
+    (hlen : len < 2 ^ 63) (hbase : base + len < U64) (hfd : FdsOk msgs) :
+    (iterate base (kernelFill msgs len g).1 (kernelFill msgs len g).2).msgs = delivered msgs len ∧
+    (iterate base (kernelFill msgs len g).1 (kernelFill msgs len g).2).bad = none := by
   have hk : kernelFill msgs len g = kfill msgs len g := rfl
   rw [hk]
   obtain ⟨f1, f2, f3, f4⟩ := kfill_facts msgs len g hg
@@ -303,20 +334,23 @@ theorem iter_exact (msgs : List (List Nat)) (len : Nat) (g : List Nat) (hg : len
     have h0 : (kfill msgs len g).2 = 0 := by simp only [HDR] at h; omega
     exact ⟨(f3 h0).symm, trivial⟩
   · simp only [if_neg h]
-    have := iter_kfill msgs len g ((kfill msgs len g).2 + 1) 0 hg hlen hfd (by simp only [HDR] at h; omega) (by omega)
+    have := iter_kfill base msgs len g ((kfill msgs len g).2 + 1) 0 hg (by omega) (by omega) hfd
+      (by simp only [HDR] at h; omega) (by omega)
     simp only [Nat.zero_add] at this
     exact ⟨this.1, this.2.1⟩
 
-theorem iter_in_bounds (msgs : List (List Nat)) (len : Nat) (g : List Nat) (hg : len ≤ g.length) (hlen : len < 2 ^ 63)
-    (hfd : FdsOk msgs) :
-    ∀ x ∈ (iterate (kernelFill msgs len g).1 (kernelFill msgs len g).2).reads, x.1 + x.2 ≤ (kernelFill msgs len g).2 := by
+theorem iter_in_bounds (base : Nat) (msgs : List (List Nat)) (len : Nat) (g : List Nat) (hg : len ≤ g.length)
+    (hlen : len < 2 ^ 63) (hbase : base + len < U64) (hfd : FdsOk msgs) :
+    ∀ x ∈ (iterate base (kernelFill msgs len g).1 (kernelFill msgs len g).2).reads,
+      x.1 + x.2 ≤ (kernelFill msgs len g).2 := by
   have hk : kernelFill msgs len g = kfill msgs len g := rfl
   rw [hk]
   simp only [iterate]
   by_cases h : (kfill msgs len g).2 < HDR
   · simp only [if_pos h]; intro x hx; simp at hx
   · simp only [if_neg h]
-    have := iter_kfill msgs len g ((kfill msgs len g).2 + 1) 0 hg hlen hfd (by simp only [HDR] at h; omega) (by omega)
+    have := iter_kfill base msgs len g ((kfill msgs len g).2 + 1) 0 hg (by omega) (by omega) hfd
+      (by simp only [HDR] at h; omega) (by omega)
     simp only [Nat.zero_add] at this
     intro x hx
     exact (this.2.2 x hx).2
@@ -324,6 +358,231 @@ theorem iter_in_bounds (msgs : List (List Nat)) (len : Nat) (g : List Nat) (hg :
 /-- the kernel never reports more than it was given, so "inside msg_controllen" is "inside the supplied buffer" -/
 theorem controllen_le_supplied (msgs : List (List Nat)) (len : Nat) (g : List Nat) (hg : len ≤ g.length) :
     (kernelFill msgs len g).2 ≤ len := (kfill_facts msgs len g hg).1
+
+/-! ### the iterator on EVERY byte content of the control buffer
+
+`mem` is the memory starting at `msg_control` (any bytes — in fact any naturals), of which the first `ctl =
+msg_controllen` bytes are the control buffer; `base` is the address of `msg_control`.  The specification side is the
+kernel's: `wfPrefix` walks the buffer while every header is `CMSG_OK` and reports why it stopped. -/
+
+/-- the environment the theorems assume: the control buffer is mapped, `msg_controllen` is a sane `usize` and the
+buffer does not wrap around the address space (true of every `&mut [u8]`) -/
+structure CtlEnv (base : Nat) (mem : List Nat) (ctl : Nat) : Prop where
+  mapped : ctl ≤ mem.length
+  small : ctl < 2 ^ 63
+  noWrap : base + ctl < U64
+
+theorem walk_post {base : Nat} {mem : List Nat} {ctl : Nat} (env : CtlEnv base mem ctl) (h16 : ¬ ctl < HDR) :
+    WalkPost base mem ctl 0 (wfPrefix uNext mem ctl) (iterate base mem ctl) := by
+  have := iter_walk base mem ctl env.mapped env.small env.noWrap (ctl + 1) (ctl + 1) 0 (by simp only [HDR] at *; omega)
+    (by omega) (by omega)
+  rw [List.drop_zero] at this
+  simp only [wfPrefix, iterate, if_neg h16]
+  exact this
+
+/-- **iter_terminates**: for every memory content (mapped or not), every `msg_controllen` and every address, the
+iteration ends (each `cmsg_nxthdr!` that yields a header advances by at least 16 bytes towards `msg_controllen`) -/
+theorem iter_terminates (base : Nat) (mem : List Nat) (ctl : Nat) : (iterate base mem ctl).bad ≠ some .fuel := by
+  simp only [iterate]
+  split
+  · simp
+  · exact iterFrom_no_fuel base ctl (ctl + 1) 0 mem (by omega)
+
+/-- **iter_wellformed**: when every header the walk meets is `CMSG_OK` — whatever their levels and types
+(SCM_CREDENTIALS before or after rights, unknown levels, zero-length payloads), whatever the bytes of payloads and
+padding — the iterator yields exactly the descriptor lists of the SOL_SOCKET/SCM_RIGHTS headers, in order, without
+fault, panic or abort, and every byte it (and the consumer of the slices) reads lies in `[0, msg_controllen)` -/
+theorem iter_wellformed {base : Nat} {mem : List Nat} {ctl : Nat} (env : CtlEnv base mem ctl)
+    (hdone : (wfPrefix uNext mem ctl).2 = .done) :
+    (iterate base mem ctl).msgs = rightsOf mem (wfPrefix uNext mem ctl).1 ∧ (iterate base mem ctl).bad = none ∧
+    ∀ x ∈ (iterate base mem ctl).reads, x.1 + x.2 ≤ ctl := by
+  by_cases h16 : ctl < HDR
+  · simp only [iterate, wfPrefix, if_pos h16, rightsOf]
+    exact ⟨trivial, trivial, fun x hx => by cases hx⟩
+  · have := walk_post env h16
+    simp only [WalkPost, hdone] at this
+    obtain ⟨pre, hr, hin⟩ := this
+    rw [hr]
+    exact ⟨rfl, rfl, fun x hx => (hin x hx).2⟩
+
+/-- **iter_stops_at_malformed_foreign**: when the first header that is not `CMSG_OK` (`cmsg_len < 16`, or `cmsg_len`
+larger than what is left of the buffer — also a header truncated by the end of the buffer) is NOT tagged
+SOL_SOCKET/SCM_RIGHTS, the iterator has yielded exactly the descriptor lists of the well-formed prefix, stops AT
+that header — nothing at or after `o + 16` is read — without fault, panic or abort.  (`cmsg_len` within 23 of 2^64
+is the one exception: `iter_foreign_len_overflow`.) -/
+theorem iter_stops_at_malformed_foreign {base : Nat} {mem : List Nat} {ctl : Nat} (env : CtlEnv base mem ctl)
+    (o : Nat) (h : Hdr) (hstop : (wfPrefix uNext mem ctl).2 = .malformed o h) (hr : isRights h = false)
+    (hsmall : h.len < 16 ∨ h.len + 24 ≤ U64) :
+    (iterate base mem ctl).msgs = rightsOf mem (wfPrefix uNext mem ctl).1 ∧ (iterate base mem ctl).bad = none ∧
+    (∀ x ∈ (iterate base mem ctl).reads, x.1 + x.2 ≤ o + 16) ∧ o + 16 ≤ ctl := by
+  by_cases h16 : ctl < HDR
+  · simp only [wfPrefix, if_pos h16] at hstop; cases hstop
+  · have := walk_post env h16
+    simp only [WalkPost, hstop] at this
+    obtain ⟨pre, hrr, hin, _, ho, hd, hnok⟩ := this
+    rw [lastStep_foreign base ctl o _ h hr hnok ho env.noWrap hsmall] at hrr
+    rw [hrr]
+    refine ⟨by simp, rfl, ?_, ho⟩
+    intro x hx
+    simp only [List.mem_append, List.mem_cons, List.not_mem_nil, or_false] at hx
+    rcases hx with hx | rfl
+    · have := hin x hx; omega
+    · simp only [HDR]; omega
+
+/-- the exception: a foreign malformed header whose `cmsg_len ≥ 2^64 - 23` makes `cmsg_nxthdr!`'s alignment
+arithmetic overflow — a panic in a build with overflow checks -/
+theorem iter_foreign_len_overflow {base : Nat} {mem : List Nat} {ctl : Nat} (env : CtlEnv base mem ctl)
+    (o : Nat) (h : Hdr) (hstop : (wfPrefix uNext mem ctl).2 = .malformed o h) (hr : isRights h = false)
+    (hbig : U64 ≤ h.len + 23) : (iterate base mem ctl).bad = some .panic := by
+  by_cases h16 : ctl < HDR
+  · simp only [wfPrefix, if_pos h16] at hstop; cases hstop
+  · have := walk_post env h16
+    simp only [WalkPost, hstop] at this
+    obtain ⟨pre, hrr, _⟩ := this
+    rw [lastStep_foreign_overflow base ctl o _ h hr hbig] at hrr
+    rw [hrr]
+
+/-- **iter_malformed_rights_short** (the full statement is FALSE here): the first malformed header is tagged
+SOL_SOCKET/SCM_RIGHTS and has `cmsg_len < 16` — `cmsg + cmsg_len - data` underflows: panic (debug build; in a release
+build the length wraps to ~2^62 descriptors) -/
+theorem iter_malformed_rights_short {base : Nat} {mem : List Nat} {ctl : Nat} (env : CtlEnv base mem ctl)
+    (o : Nat) (h : Hdr) (hstop : (wfPrefix uNext mem ctl).2 = .malformed o h) (hr : isRights h = true)
+    (hshort : h.len < 16) : (iterate base mem ctl).bad = some .panic := by
+  by_cases h16 : ctl < HDR
+  · simp only [wfPrefix, if_pos h16] at hstop; cases hstop
+  · have := walk_post env h16
+    simp only [WalkPost, hstop] at this
+    obtain ⟨pre, hrr, _⟩ := this
+    rw [lastStep_rights_short base ctl o _ h hr hshort] at hrr
+    rw [hrr]
+
+/-- **iter_malformed_rights_long** (the full statement is FALSE here too): the first malformed header is tagged
+SOL_SOCKET/SCM_RIGHTS and has `cmsg_len` larger than what is left of the buffer.  No `CMSG_OK` test is made: a slice of
+`(cmsg_len - 16) / 4` descriptors starting at `o + 16` is handed out after the descriptor lists of the well-formed
+prefix — as soon as `cmsg_len` exceeds the rest of the buffer by 4 it extends past `msg_controllen` -/
+theorem iter_malformed_rights_long {base : Nat} {mem : List Nat} {ctl : Nat} (env : CtlEnv base mem ctl)
+    (o : Nat) (h : Hdr) (hstop : (wfPrefix uNext mem ctl).2 = .malformed o h) (hr : isRights h = true)
+    (hlong : 16 ≤ h.len) (hb24 : 24 ≤ base) (hov : base + o + h.len < U64) (hsz : h.len < 2 ^ 63)
+    (hmap : o + h.len ≤ mem.length) :
+    (iterate base mem ctl).msgs =
+      rightsOf mem (wfPrefix uNext mem ctl).1 ++ [groups4 ((h.len - 16) / 4) (mem.drop (o + 16))] ∧
+    (iterate base mem ctl).bad = none ∧ (o + 16, 4 * ((h.len - 16) / 4)) ∈ (iterate base mem ctl).reads ∧
+    (ctl - o + 4 ≤ h.len → ctl < o + 16 + 4 * ((h.len - 16) / 4)) := by
+  by_cases h16 : ctl < HDR
+  · simp only [wfPrefix, if_pos h16] at hstop; cases hstop
+  · have := walk_post env h16
+    simp only [WalkPost, hstop] at this
+    obtain ⟨pre, hrr, hin, _, ho, hd, hnok⟩ := this
+    rw [lastStep_rights_long base ctl o _ h hr hnok hlong ho env.noWrap hov (by omega)
+      (by simp only [HDR, FD, ISIZE_MAX]; omega) (by simp only [List.length_drop, HDR, FD]; omega)] at hrr
+    rw [hrr]
+    refine ⟨by simp only [List.drop_drop, HDR, FD], rfl, by simp [HDR, FD], ?_⟩
+    intro hx
+    simp only [HDR] at ho
+    omega
+
+/-- same header, the bytes after the buffer not mapped (a guard page): the consumer of the slice faults -/
+theorem iter_malformed_rights_long_fault {base : Nat} {mem : List Nat} {ctl : Nat} (env : CtlEnv base mem ctl)
+    (o : Nat) (h : Hdr) (hstop : (wfPrefix uNext mem ctl).2 = .malformed o h) (hr : isRights h = true)
+    (hlong : 16 ≤ h.len) (hb24 : 24 ≤ base) (hov : base + o + h.len < U64) (hsz : h.len < 2 ^ 63)
+    (hunmapped : mem.length < o + 16 + 4 * ((h.len - 16) / 4)) : (iterate base mem ctl).bad = some .fault := by
+  by_cases h16 : ctl < HDR
+  · simp only [wfPrefix, if_pos h16] at hstop; cases hstop
+  · have := walk_post env h16
+    simp only [WalkPost, hstop] at this
+    obtain ⟨pre, hrr, hin, _, ho, hd, hnok⟩ := this
+    have hm := env.mapped
+    have ho' : o + 16 ≤ ctl := ho
+    rw [lastStep_rights_long_fault base ctl o _ h hr hnok hlong ho env.noWrap hov (by omega)
+      (by simp only [HDR, FD, ISIZE_MAX]; omega) (by simp only [List.length_drop, HDR, FD]; omega)] at hrr
+    rw [hrr]
+
+/-- **iter_malformed_rights_never_clean**: whatever its `cmsg_len`, a malformed SOL_SOCKET/SCM_RIGHTS header is never
+simply where the iteration stops: the run crashes, or one more item — built from the malformed header — is yielded -/
+theorem iter_malformed_rights_never_clean {base : Nat} {mem : List Nat} {ctl : Nat} (env : CtlEnv base mem ctl)
+    (o : Nat) (h : Hdr) (hstop : (wfPrefix uNext mem ctl).2 = .malformed o h) (hr : isRights h = true) :
+    (iterate base mem ctl).bad ≠ none ∨
+    (iterate base mem ctl).msgs.length = (rightsOf mem (wfPrefix uNext mem ctl).1).length + 1 := by
+  by_cases h16 : ctl < HDR
+  · simp only [wfPrefix, if_pos h16] at hstop; cases hstop
+  · have := walk_post env h16
+    simp only [WalkPost, hstop] at this
+    obtain ⟨pre, hrr, _⟩ := this
+    rw [hrr]
+    rcases lastStep_rights_never_clean base ctl o (mem.drop o) h hr with hb | hm
+    · left; exact hb
+    · right; simp only [List.length_append, hm]
+
+/-- the walk always ends in `done` or at a malformed header (so the theorems above cover every buffer) -/
+theorem walk_stop_cases {base : Nat} {mem : List Nat} {ctl : Nat} (env : CtlEnv base mem ctl) :
+    (wfPrefix uNext mem ctl).2 = .done ∨ ∃ o h, (wfPrefix uNext mem ctl).2 = .malformed o h := by
+  by_cases h16 : ctl < HDR
+  · left; simp only [wfPrefix, if_pos h16]
+  · have := walk_post env h16
+    cases hs : (wfPrefix uNext mem ctl).2 with
+    | done => left; rfl
+    | malformed o h => right; exact ⟨o, h, rfl⟩
+    | unmapped => simp only [WalkPost, hs] at this
+    | fuel => simp only [WalkPost, hs] at this
+
+/-- **hostile witnesses** — "for every byte content the iterator stops without panic at the first malformed header and
+never reads outside the buffer" is FALSE for the code as it is.  16-byte buffers holding one header tagged
+SOL_SOCKET/SCM_RIGHTS: `cmsg_len = 0` panics; `cmsg_len = 24` hands out two descriptors read from the 8 bytes AFTER the
+buffer (5 and 6 here), or faults when nothing is mapped there -/
+theorem hostile_witness_panic : (iterate NOMINAL_BASE (encHdr 0 1 1) 16).bad = some .panic := by decide
+
+theorem hostile_witness_oob :
+    iterate NOMINAL_BASE (encHdr 24 1 1 ++ Cmsg.le 4 5 ++ Cmsg.le 4 6) 16 = ⟨[[5, 6]], [(0, 16), (16, 8)], none⟩ := by
+  decide
+
+theorem hostile_witness_fault : (iterate NOMINAL_BASE (encHdr 24 1 1) 16).bad = some .fault := by decide
+
+theorem full_statement_false :
+    ¬ ∀ (mem : List Nat) (ctl : Nat), CtlEnv NOMINAL_BASE mem ctl →
+        (iterate NOMINAL_BASE mem ctl).bad = none ∧ ∀ x ∈ (iterate NOMINAL_BASE mem ctl).reads, x.1 + x.2 ≤ ctl := by
+  intro hall
+  have := (hall (encHdr 0 1 1) 16 ⟨by decide, by decide, by decide⟩).1
+  rw [hostile_witness_panic] at this
+  cases this
+
+/-- **trailing_slot**: the userland CMSG_NXTHDR the macros follow (musl: strictly more than a header must remain) never
+visits a header that occupies exactly the last 16 bytes of the buffer, the kernel's `__cmsg_nxthdr` does.  Such a header,
+if it is `CMSG_OK`, has `cmsg_len = 16` — no payload: the two walks carry exactly the same descriptors -/
+theorem kernel_walk_same_descriptors {mem : List Nat} {ctl : Nat} (hmem : ctl ≤ mem.length) :
+    (rightsOf mem (wfPrefix kNext mem ctl).1).flatten = (rightsOf mem (wfPrefix uNext mem ctl).1).flatten := by
+  by_cases h16 : ctl < HDR
+  · simp only [wfPrefix, if_pos h16]
+  · have := walk_slot mem ctl hmem (ctl + 1) 0 (by simp only [HDR] at *; omega) (by omega)
+    simp only [wfPrefix, if_neg h16]
+    rcases this with h | ⟨_, _, h', hl, h⟩ | ⟨_, h, _⟩
+    · rw [h]
+    · rw [h, rightsOf_append]
+      simp only [rightsOf]
+      split
+      · simp [hl, groups4]
+      · simp
+    · rw [h]
+
+theorem trailing_slot_witness :
+    (iterate NOMINAL_BASE (encHdr 16 1 1 ++ encHdr 16 1 1) 32).msgs = [[]] ∧
+    rightsOf (encHdr 16 1 1 ++ encHdr 16 1 1) (wfPrefix kNext (encHdr 16 1 1 ++ encHdr 16 1 1) 32).1 = [[], []] := by
+  decide
+
+/-- **send_iter_roundtrip**: the real iterator over the buffer `create_send` built yields exactly the descriptors -/
+theorem send_iter_roundtrip (base : Nat) (fds : List Nat) (hn : 16 + 4 * fds.length + 8 < 2 ^ 63)
+    (hbase : base + 16 + 4 * fds.length + 8 < U64) (hf : ∀ f ∈ fds, f < 2 ^ 32) :
+    (iterate base (createSend fds).1 (createSend fds).2).msgs = [fds] ∧
+    (iterate base (createSend fds).1 (createSend fds).2).bad = none := by
+  have hc := createSend_ctl fds
+  have ha := align_lt (16 + 4 * fds.length)
+  have hw := createSend_walk uNext fds (by omega) (by
+    have ha := align_ge (16 + 4 * fds.length)
+    simp only [uNext, createSend_ctl, HDR]; rw [if_pos (by omega)])
+  have env : CtlEnv base (createSend fds).1 (createSend fds).2 :=
+    ⟨by rw [send_layout_length]; exact Nat.le_refl _, by omega, by simp only [U64] at *; omega⟩
+  have := iter_wellformed env (by rw [hw])
+  rw [hw] at this
+  exact ⟨by rw [this.1]; exact createSend_rights fds (fun f h => by have := hf f h; omega), this.2.1⟩
 
 /-- **cmsg_oob_witness** — the macros as they were before commit 1998249: with an exactly fitting 24-byte buffer
 (one descriptor), the field and the local variable 256 bytes apart on the stack, and a stale header in the memory
@@ -339,8 +598,8 @@ theorem cmsg_oob_witness :
 
 /-- the repaired macros on the same memory: one message, nothing read past 24 -/
 theorem cmsg_witness_fixed :
-    (iterate witnessMem 24).msgs = [[7]] ∧ (iterate witnessMem 24).reads = [(0, 16), (16, 4)] ∧
-    (iterate witnessMem 24).bad = none := by
+    (iterate NOMINAL_BASE witnessMem 24).msgs = [[7]] ∧ (iterate NOMINAL_BASE witnessMem 24).reads = [(0, 16), (16, 4)] ∧
+    (iterate NOMINAL_BASE witnessMem 24).bad = none := by
   decide
 
 end Cm
@@ -371,6 +630,44 @@ example : inetImage (inetNew [127, 0, 0, 1] 8080) = [2, 0, 31, 144, 127, 0, 0, 1
 example : (kernelFill [[5, 6, 7]] 27 (List.replicate 40 170)).2 = 24 ∧ delivered [[5, 6, 7]] 27 = [[5, 6]] := by decide
 example : FdsOk [[5, 6, 7], [8]] := by intro fds h f hf; simp at h; rcases h with rfl | rfl <;> simp at hf <;> omega
 example : (createSend [7, 8]).1 = encHdr 24 1 1 ++ Cmsg.le 4 7 ++ Cmsg.le 4 8 ∧ (createSend [7, 8]).2 = 24 := by decide
+
+-- hostile / foreign control buffers.  SCM_CREDENTIALS (level 1, type 2, 12 bytes of payload, CMSG_SPACE 32) in front of two descriptors:
+def credsThenRights : List Nat := encHdr 28 1 2 ++ List.replicate 12 77 ++ [0, 0, 0, 0] ++ encHdr 24 1 1 ++ Cmsg.le 4 5 ++ Cmsg.le 4 6
+example : CtlEnv NOMINAL_BASE credsThenRights 56 := ⟨by decide, by decide, by decide⟩
+example : wfPrefix uNext credsThenRights 56 = ([(0, ⟨28, 1, 2⟩), (32, ⟨24, 1, 1⟩)], .done) ∧
+    (iterate NOMINAL_BASE credsThenRights 56).msgs = [[5, 6]] := by decide
+-- one descriptor, then a foreign header with cmsg_len = 5: the iterator stops at offset 24 having yielded [7]
+def rightsThenShortForeign : List Nat := encHdr 20 1 1 ++ Cmsg.le 4 7 ++ [0, 0, 0, 0] ++ encHdr 5 1 2 ++ List.replicate 8 0
+example : CtlEnv NOMINAL_BASE rightsThenShortForeign 48 := ⟨by decide, by decide, by decide⟩
+example : (wfPrefix uNext rightsThenShortForeign 48).2 = .malformed 24 ⟨5, 1, 2⟩ ∧ isRights ⟨5, 1, 2⟩ = false ∧
+    iterate NOMINAL_BASE rightsThenShortForeign 48 = ⟨[[7]], [(0, 16), (16, 4), (24, 16)], none⟩ := by decide
+-- a foreign header whose cmsg_len is larger than the rest of the buffer (truncated last message): clean stop
+example : (wfPrefix uNext (encHdr 4096 41 7 ++ List.replicate 16 0) 32).2 = .malformed 0 ⟨4096, 41, 7⟩ ∧
+    iterate NOMINAL_BASE (encHdr 4096 41 7 ++ List.replicate 16 0) 32 = ⟨[], [(0, 16)], none⟩ := by decide
+-- cmsg_len = 2^64 - 1 in a foreign header: the alignment arithmetic overflows
+example : (wfPrefix uNext (encHdr 18446744073709551615 1 2 ++ List.replicate 16 0) 32).2 =
+      .malformed 0 ⟨18446744073709551615, 1, 2⟩ ∧ isRights ⟨18446744073709551615, 1, 2⟩ = false ∧
+    U64 ≤ 18446744073709551615 + 23 ∧
+    (iterate NOMINAL_BASE (encHdr 18446744073709551615 1 2 ++ List.replicate 16 0) 32).bad = some .panic := by decide
+-- the hypotheses of the malformed-rights theorems on the witnesses
+example : CtlEnv NOMINAL_BASE (encHdr 0 1 1) 16 ∧ (wfPrefix uNext (encHdr 0 1 1) 16).2 = .malformed 0 ⟨0, 1, 1⟩ ∧
+    isRights ⟨0, 1, 1⟩ = true := ⟨⟨by decide, by decide, by decide⟩, by decide, by decide⟩
+example : CtlEnv NOMINAL_BASE (encHdr 24 1 1 ++ Cmsg.le 4 5 ++ Cmsg.le 4 6) 16 ∧
+    (wfPrefix uNext (encHdr 24 1 1 ++ Cmsg.le 4 5 ++ Cmsg.le 4 6) 16).2 = .malformed 0 ⟨24, 1, 1⟩ ∧
+    0 + 24 ≤ (encHdr 24 1 1 ++ Cmsg.le 4 5 ++ Cmsg.le 4 6).length ∧ 16 - 0 + 4 ≤ 24 :=
+  ⟨⟨by decide, by decide, by decide⟩, by decide, by decide, by decide⟩
+example : CtlEnv NOMINAL_BASE (encHdr 24 1 1) 16 ∧ (wfPrefix uNext (encHdr 24 1 1) 16).2 = .malformed 0 ⟨24, 1, 1⟩ ∧
+    (encHdr 24 1 1).length < 0 + 16 + 4 * ((24 - 16) / 4) := ⟨⟨by decide, by decide, by decide⟩, by decide, by decide⟩
+-- a malformed rights header whose excess is below 4 bytes: an item is still built from it (here: no crash, one item)
+example : iterate NOMINAL_BASE (encHdr 23 1 1 ++ Cmsg.le 4 9 ++ [0, 0, 0, 0]) 20 = ⟨[[9]], [(0, 16), (16, 4)], none⟩ ∧
+    (wfPrefix uNext (encHdr 23 1 1 ++ Cmsg.le 4 9 ++ [0, 0, 0, 0]) 20).2 = .malformed 0 ⟨23, 1, 1⟩ := by decide
+-- from_raw_parts' precondition check: 2^63 + 32
+example : (iterate NOMINAL_BASE (encHdr 9223372036854775840 1 1) 16).bad = some .abort := by decide
+-- the send side
+example : wfPrefix kNext (createSend [7, 8, 9]).1 (createSend [7, 8, 9]).2 = ([(0, ⟨28, 1, 1⟩)], .done) ∧
+    (createSend [7, 8, 9]).1 = [28, 0, 0, 0, 0, 0, 0, 0, 1, 0, 0, 0, 1, 0, 0, 0, 7, 0, 0, 0, 8, 0, 0, 0, 9, 0, 0, 0, 0, 0, 0, 0] ∧
+    (iterate NOMINAL_BASE (createSend [7, 8, 9]).1 (createSend [7, 8, 9]).2).msgs = [[7, 8, 9]] := by decide
+example : NOMINAL_BASE + 16 + 4 * [7, 8, 9].length + 8 < U64 ∧ ∀ f ∈ [7, 8, 9], f < 2 ^ 32 := by decide
 
 end Examples
 
